@@ -1,9 +1,12 @@
 #!/bin/sh
 # runs every registered check of a tier in sequence; prints one line per property
+# usage: tools/run_all.sh [quick|thorough] [C01 C02 ...]   (default: all properties)
 TIER="${1:-quick}"
+[ $# -gt 0 ] && shift
+PROPS="${*:-C01 C02 C03 C04 C05 C06 C07 C08 C09 C10 C11 C12 C13 C14 C15 C16 C17 C18 C19 C20}"
 cd "$(dirname "$0")/.." && ./bootstrap.sh >/dev/null
 FAIL=0
-for P in C01 C02 C03 C04 C05 C06 C07 C08 C09 C10 C11 C12 C13 C14 C15 C16 C17 C18 C19 C20; do
+for P in $PROPS; do
   START=$(date +%s)
   .venv/bin/python -m vf.check $P --tier $TIER > /tmp/run_all_$P.log 2>&1; RC=$?
   END=$(date +%s)
